@@ -92,6 +92,9 @@ class Eff:
 
     def then(self, o):
         absolute = lambda l: any(str(t).startswith("frame:") for t in l.t)
+        if absolute(o.d) and o.d.c == 0 and all(str(t).startswith("frame:") for t in o.d.t):
+            # a bare marker (a frame being set up, with the stack pointer moved separately): it tags the path, the height stays
+            return Eff(self.d + o.d, self.low)
         if absolute(o.d):
             # absolute assignment of sp (frame entry / exit): the net result no longer depends on what came before
             return Eff(o.d, self.low)
@@ -379,6 +382,10 @@ class Effects:
                         v = v.subst({hit[0]: snaps[hit[0]]})
                 if v is not None and v.t.get("self.sp") == 1:
                     return self.seq(pre, {(Eff(v - Lin(0, {"self.sp": 1})), "fall")})
+                if v is not None and where in self.F.fns and v.t and all(t in self.param_names(where) for t in v.t):
+                    # inside a helper, from its parameters (`fn reserve_locals(&mut self, bp, num_locals, ..) { self.sp = bp + num_locals }`):
+                    # an absolute height the caller's arguments decide; resolved where the helper is called
+                    return self.seq(pre, {(Eff(v + Lin(0, {"@abs": 1}), Lin(0)), "fall")})
                 txt = H.render(n["r"])
                 a = self.abs_assign(n["r"], where)
                 self.frame_facts.setdefault(where, []).append((txt, repr(a)))
@@ -413,10 +420,29 @@ class Effects:
                     v = sym_of(a)
                     if v is not None:
                         m[pn] = v
-                return self.seq(pre, {(d.subst(m), "fall") for d in s} | {(Eff(0), "err")})
+                outs = set()
+                for d in s:
+                    d2 = d.subst(m)
+                    if "@abs" in d2.d.t:
+                        # sp := value, with the value now in the caller's terms: a height named earlier (`let bp = self.sp - n`) makes it relative
+                        val = d2.d - Lin(0, {"@abs": d2.d.t["@abs"]})
+                        snaps = getattr(self, "_snaps", {})
+                        for t in list(val.t):
+                            if t in snaps and val.t[t] == 1:
+                                val = val.subst({t: snaps[t]})
+                        if val.t.get("self.sp") == 1:
+                            d2 = Eff(val - Lin(0, {"self.sp": 1}), Lin(0))
+                        else:
+                            self.problems.append((where, "%s sets self.sp to %s: not resolvable to an sp-relative form here" % (nm, val)))
+                            d2 = Eff(Lin(0, {"frame:?": 1}), Lin(0))
+                    outs.add((d2, "fall"))
+                return self.seq(pre, outs | {(Eff(0), "err")})
             return pre
         if k == "call":
             pre = self.eff(n.get("args", []), where)
+            if (n.get("callee") or "").endswith("Frame::new") and len(n.get("args", [])) == 2:
+                # a frame is being set up: the path enters a callee (however the stack pointer was moved past its locals)
+                return self.seq(pre, {(Eff(Lin(0, {"frame:enter": 1}), Lin(0)), "fall")})
             return pre
         # generic: children in order
         cur = Z
